@@ -355,3 +355,24 @@ def jit_off_run(ctx, jobs, panel_sources, panel_ops):
                     ctx.violation("jit|%s|%s" % (s, op), "JitIndependent", detail=where, sig={"clause": "JitIndependent", "act": op.split(":")[0]}, replay={"source": s, "op": op})
     ctx.note("jit_off", {"histories": len(out["traces"]), "panel_observations": n})
     return out["traces"]
+
+
+# ----------------------------------------------------------------------------- directed histories
+def counterexample_history(ctx, mech, focus, inv, handles=(1, 2), base=(1,), max_len=4, max_mut=2):
+    """TLC's shortest history on which the mechanism `mech` violates `inv` (None if it holds):
+    a directed test for the real code instead of hoping a sampled history hits it."""
+    import re
+
+    c = gen_cfg(mech, focus, max_len, ["Access", "ToXarray", "ToGdf", "ToPoly", "ToLine", "Mutate", "EditExport", "EditReturned", "Copy", "Chunk", "DataToGdf"], handles, base, (inv,), max_mut)
+    r = ctx.tlc("GridLazyGen", c, what="GridLazy(%s): shortest history violating %s" % (mech, inv), workers=1, count=False, timeout=900)
+    if r.violated is None:
+        if not r.ok:
+            raise Machinery("TLC failed on %s/%s: %s" % (mech, inv, r.out[-800:]))
+        return None
+    if r.violated != inv:
+        raise Machinery("expected %s to be violated, got %s" % (inv, r.violated))
+    hs = re.findall(r"/\\ hist = (<<.*?>>)\n(?:/\\|\n|$)", r.trace_text, flags=re.S)
+    if not hs:
+        raise Machinery("no history in TLC's counterexample:\n" + r.trace_text[-1500:])
+    v = tlaval.parse(hs[-1])
+    return [[st[0], st[1], _plain(st[2])] for st in v]
